@@ -241,7 +241,7 @@ class C07(Prop):
             "design": gen_ir.recipes(self.cfg(tier)),
             "source": source,
             "pre": st.one_of(st.just([]), st.lists(st.fixed_dictionaries({
-                "k": st.sampled_from(["clone_def", "remove_def", "foreign", "clone_inst"]),
+                "k": st.sampled_from(["clone_def", "remove_def", "foreign", "clone_inst", "retop"]),
                 "i": st.integers(0, 30)}), min_size=1, max_size=3)),
             "root": st.fixed_dictionaries({"kind": st.sampled_from(KINDS), "i": st.integers(0, 30),
                                            "j": st.integers(0, 30), "k": st.integers(0, 30)}),
@@ -357,6 +357,20 @@ class C07(Prop):
                     keep.append(D)
                     defs = [x for x in defs if x is not D]
                     res.label("pre-removed-definition")
+            elif k == "retop":
+                # the top moves twice: by definition (a fresh top instance is made), then to a hand-made
+                # instance; the former top stays behind as a floating instance of its definition
+                try:
+                    nl.top_instance = D
+                    former = nl.top_instance
+                    second = sdn.Instance(name="second_top")
+                    second.reference = defs[(p["i"] // 3) % len(defs)]
+                    nl.set_top_instance(second)
+                except Exception as e:  # noqa
+                    res.violate("C07:retop-raises:%s" % type(e).__name__, repr(e))
+                    break
+                keep.append(former)
+                res.label("pre-top-moved-twice")
             elif k == "foreign":
                 other = sdn.Netlist(name="other")
                 host = other.create_library(name="work").create_definition(name="host")
